@@ -326,6 +326,25 @@ func classifyLoop(l *Loop) {
 			}
 			bound, isC := ConstInt(other)
 			if !isC {
+				// bounded by the length of a slice/string: i < len(x)
+				if isLenOf(other) && (bin.Op == token.LSS || bin.Op == token.LEQ) && side == bin.X {
+					okInit, okStep := false, false
+					for _, e := range phi.Edges {
+						if _, c := ConstInt(e); c {
+							okInit = true
+						}
+						if b2, isB := e.(*ssa.BinOp); isB && b2.Op == token.ADD && (b2.X == ssa.Value(phi) || derivesFromPhi(b2.X, phi)) {
+							if s, c := ConstInt(b2.Y); c && s > 0 {
+								okStep = true
+							}
+						}
+					}
+					if okInit && okStep {
+						l.Class = "len-bounded"
+						l.Detail = "index advances by a positive constant while below " + Render(other, 3)
+						return
+					}
+				}
 				continue
 			}
 			var init, step int64
@@ -360,6 +379,16 @@ func classifyLoop(l *Loop) {
 			}
 		}
 	}
+	// range over map/string: exits when the iterator is exhausted
+	for b := range l.Blocks {
+		for _, in := range b.Instrs {
+			if _, ok := in.(*ssa.Next); ok {
+				l.Class = "range"
+				l.Detail = "range loop over a map/string iterator"
+				return
+			}
+		}
+	}
 	// wait loops: contain a call to sync.Cond.Wait
 	for b := range l.Blocks {
 		for _, in := range b.Instrs {
@@ -372,4 +401,61 @@ func classifyLoop(l *Loop) {
 			}
 		}
 	}
+}
+
+func isLenOf(v ssa.Value) bool {
+	for {
+		switch x := v.(type) {
+		case *ssa.Convert:
+			v = x.X
+			continue
+		case *ssa.Call:
+			if b, ok := x.Common().Value.(*ssa.Builtin); ok && b.Name() == "len" {
+				return true
+			}
+		}
+		return false
+	}
+}
+
+// derivesFromPhi: v is phi plus constants (i += 2 inside the body then i++).
+func derivesFromPhi(v ssa.Value, phi *ssa.Phi) bool {
+	for depth := 0; depth < 6; depth++ {
+		if v == ssa.Value(phi) {
+			return true
+		}
+		switch x := v.(type) {
+		case *ssa.Phi:
+			for _, e := range x.Edges {
+				if e != ssa.Value(x) && !derivesFromPhi2(e, phi, depth+1) {
+					return false
+				}
+			}
+			return true
+		case *ssa.BinOp:
+			if x.Op == token.ADD {
+				if s, c := ConstInt(x.Y); c && s >= 0 {
+					v = x.X
+					continue
+				}
+			}
+		}
+		return false
+	}
+	return false
+}
+
+func derivesFromPhi2(v ssa.Value, phi *ssa.Phi, depth int) bool {
+	if depth > 6 {
+		return false
+	}
+	if v == ssa.Value(phi) {
+		return true
+	}
+	if b, ok := v.(*ssa.BinOp); ok && b.Op == token.ADD {
+		if s, c := ConstInt(b.Y); c && s >= 0 {
+			return derivesFromPhi2(b.X, phi, depth+1)
+		}
+	}
+	return false
 }
